@@ -145,6 +145,21 @@ func checkPackage(ctx *Ctx, fd protoreflect.FileDescriptor, tick func(what strin
 		return fmt.Errorf("file %s is not the one registered under its path", fd.Path())
 	}
 	tick("file registered")
+	for i := 0; i < fd.Services().Len(); i++ {
+		sd := fd.Services().Get(i)
+		for j := 0; j < sd.Methods().Len(); j++ {
+			md := sd.Methods().Get(j)
+			for what, d := range map[string]protoreflect.MessageDescriptor{"input": md.Input(), "output": md.Output()} {
+				if d == nil || d.IsPlaceholder() {
+					return fmt.Errorf("method %s: its %s type is an unresolved placeholder", md.FullName(), what)
+				}
+				if reg, err := protoregistry.GlobalFiles.FindDescriptorByName(d.FullName()); err != nil || reg != d {
+					return fmt.Errorf("method %s: its %s type %s is not the descriptor object the registry holds", md.FullName(), what, d.FullName())
+				}
+			}
+			tick("method linkage " + string(md.FullName()))
+		}
+	}
 	for i := 0; i < fd.Imports().Len(); i++ {
 		imp := fd.Imports().Get(i)
 		if imp.FileDescriptor == nil || imp.IsPlaceholder() {
